@@ -1,5 +1,218 @@
-(* C11 - placeholder while the proofs are being written *)
-From Coq Require Import NArith List.
-From Verif Require Import Model.L1InfoStore Model.L1InfoCases.
-Example C11_placeholder : wf_hist [] = true.
+(* C11 — the L1 info tree and the rollup exit tree mirror the L1 contracts.
+   Property theorems only (closed by `exact`), source-fact obligations, non-vacuity Examples, Print Assumptions.
+   The theorems speak about the executable model Model/L1InfoStore.v (compared with the real l1infotreesync processor on every
+   run) for ALL histories of blocks (with any storage fault), reorgs and restarts that satisfy the driver's ordering guarantee
+   `hist_ordered` (increasing block numbers, increasing log positions inside a block, uint32 rollup ids, < 2^32 leaves).
+   Keccak enters only as `nodeN` (node hash) and `leaf_hash`; the theorems that read stored tree nodes take its injectivity
+   (and "a leaf hash is not the zero hash") as explicit Section hypotheses, exactly like the generic tree-store theorems. *)
+From Coq Require Import Arith NArith ZArith List Bool Sorted.
+From Coq Require Import String.
+From Verif Require Import Base.Bytes Base.Hash Model.Merkle Model.MerkleSpec Model.Contracts Model.TreeStore Model.L1InfoStore
+  Model.L1InfoCases Proofs.Frontier Proofs.Rht Proofs.ContractProofs Proofs.SparseUpsert Proofs.TreeStoreProofs
+  Proofs.L1InfoProofs Gen.SourceFacts.
+Import ListNotations.
+Open Scope N_scope.
+
+(* ---------- the model transcribes what the source says (regenerated from /repo on every run) ---------- *)
+Example src_ger_unique : src_c11_leaf_ger_unique = true. Proof. reflexivity. Qed.
+Example src_leaf_pk : src_c11_leaf_pk_block_pos = true. Proof. reflexivity. Qed.
+Example src_vb_pk : src_c11_vb_pk_block_pos = true. Proof. reflexivity. Qed.
+Example src_cascade : src_c11_cascade_leaf_vb_init = true. Proof. reflexivity. Qed.
+Example src_init_single_row : src_c11_init_single_row = true. Proof. reflexivity. Qed.
+Example src_root_pk_is_hash : src_c11_tree_root_pk_hash = true. Proof. reflexivity. Qed.
+Example src_upsert_index : src_c11_upsert_index = ["event.RollupID - 1"%string]. Proof. reflexivity. Qed.
+Example src_leaf_index : src_c11_leaf_index = ["initialL1InfoIndex + l1InfoLeavesAdded"%string]. Proof. reflexivity. Qed.
+Example src_parent_hash : src_c11_parent_hash_rhs = ["b.ParentHash"%string]. Proof. reflexivity. Qed.
+Example src_timestamp : src_c11_timestamp_rhs = ["b.Timestamp"%string]. Proof. reflexivity. Qed.
+Example src_leaf_hash_preimage :
+  src_c11_leaf_hash_call = ["keccak256.Hash(l.GetGlobalExitRoot().Bytes(), l.PreviousBlockHash.Bytes(), t)"%string].
 Proof. reflexivity. Qed.
+Example src_v2_check_both_fields : src_c11_v2_check =
+  ["root.Hash != event.UpdateL1InfoTreeV2.CurrentL1InfoRoot || root.Index+1 != event.UpdateL1InfoTreeV2.LeafCount"%string].
+Proof. reflexivity. Qed.
+Example src_zero_exit_root_skipped : src_c11_zero_exit_root_skipped = ["event.ExitRoot == (common.Hash{})"%string]. Proof. reflexivity. Qed.
+Example src_height_is_model : src_default_height = Some 32. Proof. reflexivity. Qed.
+
+(* ---------- L1 info tree ---------- *)
+(* one leaf per info update, in chain order, consecutive indices: for ALL histories *)
+Theorem C11_l1info_indices_consecutive : forall ops, hist_ordered ops lstate_new ->
+  let leaves := d_leaves (st_db (run_hist ops lstate_new)) in
+  StronglySorted (fun a b => klt (leaf_key a) (leaf_key b)) leaves /\
+  forall k l, nth_error leaves k = Some l -> l_idx l = N.of_nat k.
+Proof. exact l1info_indices_consecutive. Qed.
+
+(* each leaf = what the GlobalExitRoot contract computes: ger = keccak(mainnet, rollup), leaf = getLeafValue(ger, blockhash(n-1), timestamp);
+   parent hash and timestamp are those of the block header the log came in *)
+Theorem C11_l1info_leaf_matches_contract : forall ops, hist_ordered ops lstate_new ->
+  forall l, In l (d_leaves (st_db (run_hist ops lstate_new))) ->
+  l_ger l = ger_of (l_mer l) (l_rer l) /\ l_hash l = l1info_leaf_value (ger_of (l_mer l) (l_rer l)) (l_parent l) (l_ts l).
+Proof. exact l1info_leaf_matches_contract. Qed.
+Theorem C11_downloader_conversion : forall h idx mer rer,
+  convert h (LUpdate idx mer rer) = EUpdate (mkU idx mer rer (h_parent h) (h_ts h)).
+Proof. exact downloader_conversion_update. Qed.
+
+(* every leaf can be looked up by index and by global exit root (the UNIQUE constraint keeps GERs distinct) *)
+Theorem C11_l1info_lookup_total : forall ops, hist_ordered ops lstate_new ->
+  let d := st_db (run_hist ops lstate_new) in
+  forall k l, nth_error (d_leaves d) k = Some l ->
+    info_by_index d (N.of_nat k) = Some l /\ info_by_ger d (l_ger l) = Some l.
+Proof. exact l1info_lookup_total. Qed.
+
+Section Keccak.
+Hypothesis nodeN_inj : forall a b c d, nodeN a b = nodeN c d -> a = c /\ b = d.
+Hypothesis leaf_nonzero : forall ger parent ts, leaf_hash ger parent ts <> 0.
+
+(* each recorded root i = Merkle root of the first i+1 leaf hashes = DepositContract.getRoot() after the (i+1)-th leaf *)
+Theorem C11_l1info_root_matches_contract : forall ops, hist_ordered ops lstate_new ->
+  let d := st_db (run_hist ops lstate_new) in
+  forall i, (i < List.length (d_leaves d))%nat ->
+  exists r, l1_root_by_index d (N.of_nat i) = Some r /\
+            r_hash r = mroot nodeN 0 (leaf_fun d) HEIGHT (S i) /\
+            ((S i < 2 ^ HEIGHT)%nat -> forall b0,
+               r_hash r = dc_root nodeN 0 HEIGHT (Nat.testbit (S i)) (dc_after nodeN (leaf_fun d) HEIGHT (S i) b0)) /\
+            r_pos r = N.of_nat i /\
+            (r_block r, r_bpos r) = leaf_key (nth i (d_leaves d) leaf0).
+Proof. exact (l1info_root_matches_contract nodeN_inj leaf_nonzero). Qed.
+
+(* every proof served for a recorded version and a covered index verifies with that leaf (GetL1InfoTreeMerkleProof and ...FromIndexToRoot) *)
+Theorem C11_l1info_proof_verifies : forall ops, hist_ordered ops lstate_new ->
+  let d := st_db (run_hist ops lstate_new) in
+  forall j k, (j < k)%nat -> (k <= List.length (d_leaves d))%nat ->
+  let root := mroot nodeN 0 (leaf_fun d) HEIGHT k in
+  let s := l1_merkle_proof_to_root d (N.of_nat j) root in
+  List.length s = HEIGHT /\ calculate_root (leaf_fun d j) s (N.of_nat j) = root.
+Proof. exact (l1info_proof_verifies nodeN_inj leaf_nonzero). Qed.
+
+(* the in-memory frontier and the stored tree stay a reachable state of the generic tree store through faults, rollbacks,
+   reorgs and restarts (so everything Proofs/TreeStoreCorollaries.v proves holds: as-if after reorg, clean retry, restart) *)
+Theorem C11_l1info_tree_reachable : forall ops, hist_ordered ops lstate_new ->
+  TreeReach (st_db (run_hist ops lstate_new)) (st_mem (run_hist ops lstate_new)).
+Proof. exact (fun ops H => Reach_run nodeN_inj leaf_nonzero ops lstate_new LInv_empty TreeReach_new H). Qed.
+
+(* the announcement check: a consistent L1 (root and count of the contract) never halts the node ... *)
+Theorem C11_v2_consistent_never_halts : forall f blk init x v, TreeReach (x_db x) (x_mem x) ->
+  let n := List.length (d_leaves (x_db x)) in
+  (0 < n)%nat -> (n < 2 ^ HEIGHT)%nat ->
+  (forall b0, v_root v = dc_root nodeN 0 HEIGHT (Nat.testbit n) (dc_after nodeN (leaf_fun (x_db x)) HEIGHT n b0)) ->
+  v_count v = N.of_nat n ->
+  process_event f blk init x (EV2 v) = EvOk x.
+Proof. exact (v2_consistent_never_halts nodeN_inj leaf_nonzero). Qed.
+(* ... any other announcement (root OR count differing) halts it, the transaction is rolled back and every later block refused *)
+Theorem C11_v2_mismatch_halts : forall f blk init x v, TreeReach (x_db x) (x_mem x) -> d_leaves (x_db x) <> [] ->
+  (v_root v <> mroot nodeN 0 (leaf_fun (x_db x)) HEIGHT (List.length (d_leaves (x_db x))) \/
+   v_count v <> u32 (N.of_nat (List.length (d_leaves (x_db x))))) ->
+  process_event f blk init x (EV2 v) = EvFail PInconsistent (x_mem x) (x_added x) true.
+Proof. exact (v2_mismatch_halts nodeN_inj leaf_nonzero). Qed.
+
+(* ---------- rollup exit tree ---------- *)
+(* for ALL histories: the node store is closed for every recorded version, the root rows are the recorded roots ... *)
+Theorem C11_rollup_tree_invariant : forall ops, hist_ordered ops lstate_new -> RInv (st_db (run_hist ops lstate_new)).
+Proof. exact (rollup_tree_invariant nodeN_inj). Qed.
+(* ... the root recorded with each accepted update is the reference sparse Merkle root of the leaf map after it ... *)
+Theorem C11_rollup_root_is_sparse_root : forall ops, hist_ordered ops lstate_new ->
+  let d := st_db (run_hist ops lstate_new) in
+  forall n r, nth_error (d_vb d) n = Some r ->
+    vr_rer r = sroot nodeN (gmap (firstn (S n) (d_vb d))) HEIGHT /\
+    nth_error (t_roots (d_rollup d)) n = Some (mkRoot (vr_rer r) (u32_pred (vr_rid r)) (vr_block r) (vr_pos r)).
+Proof. exact (rollup_root_is_sparse_root nodeN_inj). Qed.
+(* ... and a processed block moves the leaf map by "last NON-ZERO exit root verified per rollup" (zero ignored, unchanged = no-op,
+   rollup id 0 -> position 2^32-1): this is what the tree HOLDS. *)
+Theorem C11_rollup_tree_is_last_nonzero : forall f st k st', RInv (st_db st) -> block_ordered st k ->
+  process_block f st k = (None, st') ->
+  forall i, gmap (d_vb (st_db st')) i = fold_left apply_verify (k_events k) (gmap (d_vb (st_db st))) i.
+Proof. exact (rollup_tree_is_last_nonzero nodeN_inj). Qed.
+Theorem C11_rollup_leaf_lookup : forall d id, RInv d -> 1 <= id -> id - 1 <= mask32 -> d_vb d <> [] ->
+  match local_exit_root d id (ssub nodeN (gmap (d_vb d)) HEIGHT 0) with
+  | inr v => v = gmap (d_vb d) (N.to_nat (id - 1))
+  | inl QNotFound => gmap (d_vb d) (N.to_nat (id - 1)) = 0
+  | inl _ => False
+  end.
+Proof. exact (rollup_leaf_lookup nodeN_inj). Qed.
+Theorem C11_rollup_proof_verifies : forall d id n, RInv d -> 1 <= id -> id - 1 <= mask32 -> (n <= List.length (d_vb d))%nat ->
+  let g := gmap (firstn n (d_vb d)) in
+  calculate_root (g (N.to_nat (id - 1))) (rollup_merkle_proof d id (ssub nodeN g HEIGHT 0)) (id - 1) = ssub nodeN g HEIGHT 0.
+Proof. exact (rollup_proof_verifies nodeN_inj). Qed.
+End Keccak.
+
+(* the generic statement behind the rollup tree (abstract hash; also used by C08 / C12): UpsertLeaf = getSiblings + climb computes the
+   root of the updated leaf function and keeps the node store closed for the new and all older versions *)
+Theorem C11_upsert_correct : forall (hash : Type) (node : hash -> hash -> hash) (z0 : hash),
+  (forall a b c d, node a b = node c d -> a = c /\ b = d) ->
+  forall (heq_dec : forall a b : hash, {a = b} + {a <> b}) (m : @rht hash) g h k bit v,
+  WF node m -> CL node z0 m g h k ->
+  let g' := supd g (path_index h k bit) v in
+  let res := upsert_climb node 0 (swalk (zero node z0) m h (ssub node g h k) bit) v bit in
+  fst res = ssub node g' h k /\ WF node (ins_all heq_dec m (snd res)) /\ CL node z0 (ins_all heq_dec m (snd res)) g' h k /\
+  (forall g0 h0 k0, CL node z0 m g0 h0 k0 -> CL node z0 (ins_all heq_dec m (snd res)) g0 h0 k0).
+Proof. intros hash node z0 inj heq_dec. exact (upsert_correct node z0 inj heq_dec). Qed.
+
+(* ---------- transactions ---------- *)
+Theorem C11_fault_atomic : forall f st k e st', process_block f st k = (Some e, st') -> st_db st' = st_db st.
+Proof. exact process_block_error_keeps_db. Qed.
+Theorem C11_halted_is_sticky : forall f st k, st_halted st = true -> process_block f st k = (Some PInconsistent, st).
+Proof. exact halted_is_sticky. Qed.
+Theorem C11_reorg_nested : forall st b b', db_eq (st_db (reorg (reorg st b') b)) (st_db (reorg st (N.min b b'))).
+Proof. exact reorg_reorg_db. Qed.
+
+(* ---------- REFUTED: "every block of a well-formed L1 history is accepted" (finding F4) ----------
+   Full-strength statement that is FALSE of the faithful model:
+     forall ops k, hist_ordered (ops ++ [HBlock k None]) lstate_new -> (no duplicate GER, consistent announcements) ->
+       fst (process_block None (run_hist ops lstate_new) k) = None.
+   Witness: one rollup, exit roots A, B, A: the third update brings the rollup exit tree back to its first root, whose hash is the
+   PRIMARY KEY of the root table: UNIQUE violation, the block can never be processed. Replayed on the real processor on every run
+   (corpus/C11/f4_rollup_root_recurrence.jsonl). *)
+Definition f4_block (num exit : N) : block := mkBlock num (1000 + num) [EVerify (mkVB 0 1 num 17 exit 34)].
+Definition f4_ops : list hop := [HBlock (f4_block 1 0xaa) None; HBlock (f4_block 2 0xbb) None].
+Theorem C11_rollup_recurrence_refuted :
+  hist_ordered (f4_ops ++ [HBlock (f4_block 3 0xaa) None]) lstate_new /\
+  fst (process_block None (run_hist f4_ops lstate_new) (f4_block 3 0xaa)) = Some PConstraint /\
+  (* the very same block is accepted when the exit root does not recur *)
+  fst (process_block None (run_hist f4_ops lstate_new) (f4_block 3 0xcc)) = None.
+Proof.
+  split; [apply hist_ordered_b_sound; vm_compute; reflexivity|split; vm_compute; reflexivity].
+Qed.
+
+(* ---------- non-vacuity ---------- *)
+(* a concrete ordered history over real Keccak: two blocks with three info updates, an announcement that matches, batch
+   verifications for rollup ids 1, 0 (-> position 2^32-1) and 2^32-1 with a zero and an unchanged exit root, a faulted attempt,
+   a restart and a reorg of the second block: the hypotheses of the theorems above are met and the conclusions are not trivial *)
+Definition nv_block1 : block := mkBlock 5 55 [EUpdate (mkU 0 11 12 13 14); EVerify (mkVB 1 1 1 9 0xa1 7); EUpdate (mkU 3 21 22 13 14);
+                                           EVerify (mkVB 4 0 1 9 0xa2 7); EVerify (mkVB 5 1 2 9 0xa1 7); EVerify (mkVB 6 2 2 9 0 7)].
+Definition nv_block2 : block := mkBlock 8 88 [EVerify (mkVB 0 4294967295 3 9 0xa3 7); EUpdate (mkU 2 31 32 33 34)].
+Definition nv_ops : list hop := [HBlock nv_block1 (Some (TL1Rht, 40%nat)); HBlock nv_block1 None; HRestart; HBlock nv_block2 None; HReorg 8; HBlock nv_block2 None].
+Lemma nv_state_facts :
+  let d := st_db (run_hist nv_ops lstate_new) in
+  map l_idx (d_leaves d) = [0; 1; 2] /\ map vr_rid (d_vb d) = [1; 0; 4294967295] /\
+  map (fun r => N.eqb (vr_rer r) (sroot_ref 32 (nonzero_entries (map (fun i => (N.of_nat i, gmap (firstn 3 (d_vb d)) i)) [0%nat; 4294967294%nat; 4294967295%nat])))) (d_vb d)
+    = [false; false; true] /\
+  last_processed d = 8.
+Proof. vm_compute. repeat split; reflexivity. Qed.
+Example C11_nonvacuous_history : hist_ordered nv_ops lstate_new.
+Proof. apply hist_ordered_b_sound. vm_compute. reflexivity. Qed.
+(* the sparse reference evaluator used by the run-time property predicate agrees with the stored root on this history *)
+Example C11_nonvacuous_state :
+  let d := st_db (run_hist nv_ops lstate_new) in
+  map l_idx (d_leaves d) = [0; 1; 2] /\ map vr_rid (d_vb d) = [1; 0; 4294967295] /\ last_processed d = 8 /\
+  option_map vr_rer (nth_error (d_vb d) 2) = Some (sroot_ref 32 [(0, 0xa1); (4294967295, 0xa2); (4294967294, 0xa3)]) /\
+  map (fun l => N.eqb (l_hash l) (l1info_leaf_value (ger_of (l_mer l) (l_rer l)) (l_parent l) (l_ts l))) (d_leaves d) = [true; true; true].
+Proof. vm_compute. repeat split; reflexivity. Qed.
+
+Print Assumptions C11_l1info_indices_consecutive.
+Print Assumptions C11_l1info_leaf_matches_contract.
+Print Assumptions C11_downloader_conversion.
+Print Assumptions C11_l1info_lookup_total.
+Print Assumptions C11_l1info_root_matches_contract.
+Print Assumptions C11_l1info_proof_verifies.
+Print Assumptions C11_l1info_tree_reachable.
+Print Assumptions C11_v2_consistent_never_halts.
+Print Assumptions C11_v2_mismatch_halts.
+Print Assumptions C11_rollup_tree_invariant.
+Print Assumptions C11_rollup_root_is_sparse_root.
+Print Assumptions C11_rollup_tree_is_last_nonzero.
+Print Assumptions C11_rollup_leaf_lookup.
+Print Assumptions C11_rollup_proof_verifies.
+Print Assumptions C11_upsert_correct.
+Print Assumptions C11_fault_atomic.
+Print Assumptions C11_halted_is_sticky.
+Print Assumptions C11_reorg_nested.
+Print Assumptions C11_rollup_recurrence_refuted.
